@@ -58,6 +58,13 @@ func TestC08(t *testing.T) {
 				if !strings.HasPrefix(f[1], "c77") { // the probe of the restarted server runs after the first WaitStatus by design
 					lastFinish = i
 				}
+				if causeAt >= 0 && started[f[1]] > causeAt && !strings.Contains(f[1], "n") && !strings.HasPrefix(f[1], "c77") {
+					// a call that was already dispatched (parked at the notification barrier) when the server
+					// stopped may still start - with a context that has ended
+					if !strings.Contains(e, `ctx="context canceled"`) {
+						res.Violatef("a call handler started on the stopped server with a live context", in, "%s; log: %s", e, shortLog(r.Log))
+					}
+				}
 				if causeAt >= 0 && started[f[1]] < causeAt && !strings.Contains(f[1], "n") {
 					inflightAtStop[f[1]] = true
 					if !strings.Contains(e, `ctx="context canceled"`) {
